@@ -51,6 +51,10 @@ impl Leaf<'_> {
         if index == 0 {
             (self.base + 1).try_into().ok()
         } else {
+            // An index past the leaf's fan-out names nothing (and i * bits could overflow).
+            if index >= self.branch {
+                return None;
+            }
             let i = index - 1;
             let delta = self
                 .words
@@ -440,11 +444,13 @@ impl BitVectorTrait for BitVector<'_> {
             let mut node_offset = self.root.node;
             for skip_factor in self.skip_factors.iter() {
                 let node = self.load_internal(node_offset as usize)?;
-                let mut index = 0;
-                while x >= *skip_factor {
-                    index += 1;
-                    x -= *skip_factor;
+                // Divide rather than subtract in a loop:  the argument may be far past the number
+                // of ones, and then the loop would run for x / skip_factor iterations.
+                let index = x / *skip_factor;
+                if index >= self.branch {
+                    return None;
                 }
+                x %= *skip_factor;
                 node_offset = node.pointer(index)?;
             }
             let leaf = self.load_leaf(node_offset as usize)?;
